@@ -95,7 +95,7 @@ KeepSeq == {"concatenate", "stack", "hstack", "vstack"}                         
 Pred1 == {"isfinite", "isnan", "isinf", "logical_not", "signbit"}
 Index1 == {"argsort", "argmax", "argmin", "count_nonzero"}        \* positions and counts (documented: np.argmax(density); used by sortby): pure numbers
 Pred2 == {"less", "less_equal", "greater", "greater_equal", "equal", "not_equal"}
-Trans1 == {"sqrt", "square", "cbrt", "reciprocal", "power_int2", "power_nd2", "power_nd3", "power_q2", "power_a3", "power_s2", "power_ndv"}        \* np.power with a Python int / 0-d ndarray exponent
+Trans1 == {"sqrt", "square", "cbrt", "reciprocal", "power_int2", "power_nd2", "power_nd3", "power_q2", "power_a3", "power_s2", "power_ndv", "power_nd1e"}        \* np.power with a Python int / 0-d ndarray exponent
 Trans2 == {"multiply", "divide", "true_divide"}
 NpOutcome(c) ==
   LET u == PU(c.lu)  v == IF c.rk \in {"arr", "qty"} THEN PU(c.ru) ELSE Unit0 IN
@@ -104,7 +104,7 @@ NpOutcome(c) ==
     [] c.f \in Index1 -> [raises |-> FALSE, unit |-> Sparse(Unit0), bool |-> FALSE]
     [] c.f = "sqrt" -> IF URootOk(u, 2) THEN [raises |-> FALSE, unit |-> Sparse(URoot(u, 2)), bool |-> FALSE] ELSE [raises |-> FALSE, unit |-> <<"fractional">>, bool |-> FALSE]
     [] c.f = "cbrt" -> IF URootOk(u, 3) THEN [raises |-> FALSE, unit |-> Sparse(URoot(u, 3)), bool |-> FALSE] ELSE [raises |-> FALSE, unit |-> <<"fractional">>, bool |-> FALSE]
-    [] c.f \in {"square", "power_int2", "power_nd2", "power_q2", "power_s2"} -> [raises |-> FALSE, unit |-> Sparse(UPow(u, 2)), bool |-> FALSE]
+    [] c.f \in {"square", "power_int2", "power_nd2", "power_q2", "power_s2", "power_nd1e"} -> [raises |-> FALSE, unit |-> Sparse(UPow(u, 2)), bool |-> FALSE]      \* (nd1e: the exponent as a one-element array)
     [] c.f \in {"power_nd3", "power_a3"} -> [raises |-> FALSE, unit |-> Sparse(UPow(u, 3)), bool |-> FALSE]
     [] c.f = "reciprocal" -> [raises |-> FALSE, unit |-> Sparse(UInv(u)), bool |-> FALSE]
     \* an exponent that differs from element to element (an ndarray with several values): only a pure number can be raised to it -
